@@ -112,7 +112,11 @@ FAMILIES["unclosed-link-open-lines"] = lambda L: rep_to("[a](\n", L)
 FAMILIES["backtick-opener-lines"] = lambda L: "[" + rep_to("`a\n``b\n", L)
 
 FAMILIES["table-autocomplete"] = lambda L: "|a" * (L // 7) + "|\n" + "|-" * (L // 7) + "|\n" + "|c\n" * (L // 7)
-KNOWN_QUADRATIC = {"refdefs": "family:refdefs", "quote-heading-lazy": "family:quote-heading-lazy", "table-autocomplete": "family:table-autocomplete"}
+# setext headings whose text starts with "[": the reference rule is tried first on every such block and scans (and copies) all
+# following non-blank lines before it gives up - same root cause as refdefs (pointed out by a round-5 seeding agent)
+FAMILIES["setext-bracket"] = lambda L: rep_to("[x\n===\n", L)
+KNOWN_QUADRATIC = {"refdefs": "family:refdefs", "quote-heading-lazy": "family:quote-heading-lazy", "table-autocomplete": "family:table-autocomplete",
+                   "setext-bracket": "family:setext-bracket"}
 
 PRESETS = [
     ("commonmark", {"preset": "commonmark", "options": {}, "enable": [], "disable": [], "ruler2_off": []}),
